@@ -372,9 +372,11 @@ func checkSelectArm(c *RuleCtx, rule string, f *Func, chanField, callee string) 
 		return
 	}
 	_, _, until := forLoopOf(p, g, f)
-	ok, _ := g.MustPass(Point{body, 0}, PassOpts{Until: until}, p.callPred(f, callee))
+	// a message whose sender or author was blacklisted in the meantime is legitimately not handed on (C16)
+	blk := AtomBool("blacklist.Contains(...)", isCallTo("Blacklist.Contains"))
+	ok, _ := g.MustPass(Point{body, 0}, PassOpts{Until: until, Cut: g.CutAny(AtomWant{blk, true})}, p.callPred(f, callee))
 	short := callee[strings.LastIndex(callee, ".")+1:]
-	c.Check(ok, rule, f.Name, "arm "+chanField+" -> "+short, clause, "every path of the arm calls "+short+" before the next iteration", "the arm can complete without calling "+short)
+	c.Check(ok, rule, f.Name, "arm "+chanField+" -> "+short, clause, "every path of the arm (not refusing a blacklisted peer) calls "+short+" before the next iteration", "the arm can complete without calling "+short)
 }
 
 func runC02(c *RuleCtx) {
